@@ -18,11 +18,19 @@
 (***************************************************************************)
 EXTENDS Naturals, Sequences, FiniteSets, TLC
 
-CONSTANTS NW, MaxItems, MaxT, Bs, Ws, MaxGap
+CONSTANTS NW, MaxItems, MaxT, Bs, Ws, MaxGap,
+  Kinds,               \* kinds of arriving elements the schedules are built from (subset of {"ok", "exc", "pre"})
+  Extra,               \* the batch buffer holds batch_size + Extra elements (the code: 10)
+  SlowSets, SlowDur,   \* scenarios: a call that contains an element of p.slow (a set of ids) takes SlowDur ticks
+  WaitRoomBeforeLock,  \* TRUE = the code: a collector whose buffer is full waits for room BEFORE it takes the read lock
+                       \* FALSE: it takes the lock regardless (and then blocks in `buffer.put` holding it)
+  RoomCheckUnderLock   \* TRUE = repaired: "full?" is tested and the wait begun under the buffer's mutex
+                       \* FALSE = as found: `if buffer.full():` (lock-free) and only then `with _not_full: wait()` - a
+                       \* `get` in between notifies nobody, the wait then lasts until the NEXT get
 
 VARIABLES
-  p,       \* [b, w, arr]: batch_size, batch_wait_time (ticks), arrival schedule: sequence of [gap, kind],
-           \* gap = ticks since the previous arrival, kind in {"ok", "exc", "pre"}
+  p,       \* [b, w, arr, slow, dur]: batch_size, batch_wait_time (ticks), arrival schedule: sequence of [gap, kind],
+           \* gap = ticks since the previous arrival, kind in {"ok", "exc", "pre"}; a call with an element of the set `slow` takes `dur`
   now, nextArr, due,
   qin,     \* shared input queue: sequence of [id, kind] | end marker [id |-> 0, kind |-> "end"]
   rlock,   \* holder of the input queue's read lock (0 = free)
@@ -31,30 +39,34 @@ VARIABLES
   buf,     \* batch buffer per worker (sequence)
   flag,    \* _batch_get_called per worker
   gpc,     \* consumer pc per worker
+  busy,    \* time at which the running `call` of the worker returns
   batch, first, deadline,   \* consumer: batch under construction, time its first element was taken, deadline
   calls,   \* history: sequence of [w, ids, t, first]
   outs,    \* history: set of [id, kind] short-circuited to the output queue
   stopReq  \* the end marker has been put on the input queue
 
-vars == <<p, now, nextArr, due, qin, rlock, cpc, cz, buf, flag, gpc, batch, first, deadline, calls, outs, stopReq>>
+vars == <<p, now, nextArr, due, qin, rlock, cpc, cz, buf, flag, gpc, busy, batch, first, deadline, calls, outs, stopReq>>
 
 Wk == 1..NW
 End == [id |-> 0, kind |-> "end"]
 NoItem == [id |-> 0, kind |-> "none"]
 
 \* arrival schedules: up to MaxItems items, gaps 0..MaxGap, kinds
-Schedules == UNION { [1..n -> [gap : 0..MaxGap, kind : {"ok", "exc", "pre"}]] : n \in 0..MaxItems }
+Schedules == UNION { [1..n -> [gap : 0..MaxGap, kind : Kinds]] : n \in 0..MaxItems }
+Cap == p.b + Extra
 
 InitWith(c) ==
   /\ p = c /\ now = 0 /\ nextArr = 1 /\ due = (IF Len(c.arr) > 0 THEN c.arr[1].gap ELSE 0)
   /\ qin = <<>> /\ rlock = 0
-  /\ cpc = [w \in Wk |-> IF c.b >= 2 THEN "lock" ELSE "off"] /\ cz = [w \in Wk |-> NoItem]
+  /\ cpc = [w \in Wk |-> IF c.b >= 2 THEN "top" ELSE "off"] /\ cz = [w \in Wk |-> NoItem]
   /\ buf = [w \in Wk |-> <<>>] /\ flag = [w \in Wk |-> FALSE]
-  /\ gpc = [w \in Wk |-> IF c.b >= 2 THEN "first" ELSE "sget"]
+  /\ gpc = [w \in Wk |-> IF c.b >= 2 THEN "first" ELSE "sget"] /\ busy = [w \in Wk |-> 0]
   /\ batch = [w \in Wk |-> <<>>] /\ first = [w \in Wk |-> 0] /\ deadline = [w \in Wk |-> 0]
   /\ calls = <<>> /\ outs = {} /\ stopReq = FALSE
 
-Init == \E b \in Bs, w \in Ws, a \in Schedules : (b <= 1 => w = 0) /\ InitWith([b |-> b, w |-> w, arr |-> a])
+Init == \E b \in Bs, w \in Ws, a \in Schedules, s \in SlowSets :
+          /\ (b <= 1 => w = 0 /\ s = {}) /\ (\A i \in s : i <= Len(a) /\ a[i].kind = "ok")
+          /\ InitWith([b |-> b, w |-> w, arr |-> a, slow |-> s, dur |-> SlowDur])
 
 -----------------------------------------------------------------------------
 (* ENVIRONMENT                                                              *)
@@ -62,31 +74,49 @@ Arrive ==
   /\ nextArr <= Len(p.arr) /\ due = now
   /\ qin' = Append(qin, [id |-> nextArr, kind |-> p.arr[nextArr].kind]) /\ nextArr' = nextArr + 1
   /\ due' = IF nextArr < Len(p.arr) THEN now + p.arr[nextArr + 1].gap ELSE due
-  /\ UNCHANGED <<p, now, rlock, cpc, cz, buf, flag, gpc, batch, first, deadline, calls, outs, stopReq>>
+  /\ UNCHANGED <<p, now, rlock, cpc, cz, buf, flag, gpc, busy, batch, first, deadline, calls, outs, stopReq>>
 
 \* the servlet is stopped after the last arrival: the end marker enters the input queue
 Stop ==
   /\ nextArr > Len(p.arr) /\ ~stopReq
   /\ qin' = Append(qin, End) /\ stopReq' = TRUE
-  /\ UNCHANGED <<p, now, nextArr, due, rlock, cpc, cz, buf, flag, gpc, batch, first, deadline, calls, outs>>
+  /\ UNCHANGED <<p, now, nextArr, due, rlock, cpc, cz, buf, flag, gpc, busy, batch, first, deadline, calls, outs>>
 
 -----------------------------------------------------------------------------
 (* COLLECTOR thread of worker w -- `_build_input_batches`                    *)
+\* top of the collector's loop: `if buffer.full(): with buffer._not_full: buffer._not_full.wait()`
+CTop(w) ==
+  /\ cpc[w] = "top"
+  /\ cpc' = [cpc EXCEPT ![w] = IF ~WaitRoomBeforeLock \/ Len(buf[w]) < Cap THEN "lock"
+                               ELSE IF RoomCheckUnderLock THEN "waiting" ELSE "towait"]
+  /\ UNCHANGED <<p, now, nextArr, due, qin, rlock, cz, buf, flag, gpc, busy, batch, first, deadline, calls, outs, stopReq>>
+
+\* as found: the buffer was seen full WITHOUT its mutex; now the mutex is taken and the wait begins - whatever the buffer
+\* holds by now.  Only a LATER get wakes the collector up.
+CToWait(w) ==
+  /\ cpc[w] = "towait"
+  /\ cpc' = [cpc EXCEPT ![w] = "waiting"]
+  /\ UNCHANGED <<p, now, nextArr, due, qin, rlock, cz, buf, flag, gpc, busy, batch, first, deadline, calls, outs, stopReq>>
+
+\* `_not_full.notify()` of a get: a waiting collector goes on (to the read lock)
+Woken(w) == IF cpc[w] = "waiting" THEN [cpc EXCEPT ![w] = "lock"] ELSE cpc
+
 CLock(w) ==
   /\ cpc[w] = "lock" /\ rlock = 0
   /\ rlock' = w /\ cpc' = [cpc EXCEPT ![w] = "get1"]
-  /\ UNCHANGED <<p, now, nextArr, due, qin, cz, buf, flag, gpc, batch, first, deadline, calls, outs, stopReq>>
+  /\ UNCHANGED <<p, now, nextArr, due, qin, cz, buf, flag, gpc, busy, batch, first, deadline, calls, outs, stopReq>>
 
 \* `z = q_in.get()`: the blocking first get, and the greedy further gets
 CGet(w) ==
   /\ cpc[w] \in {"get1", "getmore"} /\ rlock = w /\ qin # <<>>
   /\ cz' = [cz EXCEPT ![w] = Head(qin)] /\ qin' = Tail(qin) /\ cpc' = [cpc EXCEPT ![w] = "proc"]
-  /\ UNCHANGED <<p, now, nextArr, due, rlock, buf, flag, gpc, batch, first, deadline, calls, outs, stopReq>>
+  /\ UNCHANGED <<p, now, nextArr, due, rlock, buf, flag, gpc, busy, batch, first, deadline, calls, outs, stopReq>>
 
 \* end marker: into the buffer, back onto the input queue (for a fellow worker), onto the output queue; thread ends
 \* exception value / preprocess failure: short-circuit to the output queue;  genuine input: into the buffer
 CProc(w) ==
   /\ cpc[w] = "proc" /\ rlock = w
+  /\ cz[w].kind \in {"ok", "end"} => Len(buf[w]) < Cap        \* `buffer.put` blocks while the buffer is full
   /\ IF cz[w].kind = "end"
        THEN /\ buf' = [buf EXCEPT ![w] = Append(@, End)] /\ qin' = Append(qin, End)
             /\ rlock' = 0 /\ cpc' = [cpc EXCEPT ![w] = "done"] /\ outs' = outs
@@ -96,21 +126,21 @@ CProc(w) ==
          ELSE /\ buf' = [buf EXCEPT ![w] = Append(@, cz[w])]
               /\ outs' = outs /\ qin' = qin /\ rlock' = rlock /\ cpc' = [cpc EXCEPT ![w] = "more"]
   /\ cz' = [cz EXCEPT ![w] = NoItem]
-  /\ UNCHANGED <<p, now, nextArr, due, flag, gpc, batch, first, deadline, calls, stopReq>>
+  /\ UNCHANGED <<p, now, nextArr, due, flag, gpc, busy, batch, first, deadline, calls, stopReq>>
 
 \* `if not q_in.empty() and buffer.qsize() < batchsize: z = q_in.get()`  else decide about the lock
 CMore(w) ==
   /\ cpc[w] = "more" /\ rlock = w
   /\ cpc' = [cpc EXCEPT ![w] = IF qin # <<>> /\ Len(buf[w]) < p.b THEN "getmore" ELSE "decide"]
-  /\ UNCHANGED <<p, now, nextArr, due, qin, rlock, cz, buf, flag, gpc, batch, first, deadline, calls, outs, stopReq>>
+  /\ UNCHANGED <<p, now, nextArr, due, qin, rlock, cz, buf, flag, gpc, busy, batch, first, deadline, calls, outs, stopReq>>
 
 \* `if self._batch_get_called.is_set(): clear; break` / `if buffer.qsize() >= batchsize: break` / else keep the lock
 CDecide(w) ==
   /\ cpc[w] = "decide" /\ rlock = w
-  /\ IF flag[w] THEN flag' = [flag EXCEPT ![w] = FALSE] /\ rlock' = 0 /\ cpc' = [cpc EXCEPT ![w] = "lock"]
-     ELSE IF Len(buf[w]) >= p.b THEN flag' = flag /\ rlock' = 0 /\ cpc' = [cpc EXCEPT ![w] = "lock"]
+  /\ IF flag[w] THEN flag' = [flag EXCEPT ![w] = FALSE] /\ rlock' = 0 /\ cpc' = [cpc EXCEPT ![w] = "top"]
+     ELSE IF Len(buf[w]) >= p.b THEN flag' = flag /\ rlock' = 0 /\ cpc' = [cpc EXCEPT ![w] = "top"]
      ELSE flag' = flag /\ rlock' = rlock /\ cpc' = [cpc EXCEPT ![w] = "get1"]
-  /\ UNCHANGED <<p, now, nextArr, due, qin, cz, buf, gpc, batch, first, deadline, calls, outs, stopReq>>
+  /\ UNCHANGED <<p, now, nextArr, due, qin, cz, buf, gpc, busy, batch, first, deadline, calls, outs, stopReq>>
 
 -----------------------------------------------------------------------------
 (* CONSUMER of worker w -- `_get_input_batch` + the call                     *)
@@ -123,16 +153,17 @@ GFirst(w) ==
        ELSE /\ gpc' = [gpc EXCEPT ![w] = "more"]
             /\ batch' = [batch EXCEPT ![w] = <<Head(buf[w]).id>>]
             /\ first' = [first EXCEPT ![w] = now] /\ deadline' = [deadline EXCEPT ![w] = now + p.w]
-  /\ UNCHANGED <<p, now, nextArr, due, qin, rlock, cpc, cz, flag, calls, outs, stopReq>>
+  /\ cpc' = Woken(w)
+  /\ UNCHANGED <<p, now, nextArr, due, qin, rlock, cz, flag, busy, calls, outs, stopReq>>
 
 \* `z = buffer.get(timeout=max(0, t))` finds an element (even past the deadline, if it is already there)
 GMore(w) ==
   /\ gpc[w] = "more" /\ Len(batch[w]) < p.b /\ buf[w] # <<>>
   /\ IF Head(buf[w]).kind = "end"
-       THEN buf' = buf /\ batch' = batch /\ gpc' = [gpc EXCEPT ![w] = "setflag"]     \* marker put back
+       THEN buf' = buf /\ batch' = batch /\ gpc' = [gpc EXCEPT ![w] = "setflag"] /\ cpc' = cpc    \* marker put back
        ELSE /\ buf' = [buf EXCEPT ![w] = Tail(@)] /\ batch' = [batch EXCEPT ![w] = Append(@, Head(buf[w]).id)]
-            /\ gpc' = gpc
-  /\ UNCHANGED <<p, now, nextArr, due, qin, rlock, cpc, cz, flag, first, deadline, calls, outs, stopReq>>
+            /\ gpc' = gpc /\ cpc' = Woken(w)
+  /\ UNCHANGED <<p, now, nextArr, due, qin, rlock, cz, flag, busy, first, deadline, calls, outs, stopReq>>
 
 \* the batch is full, or the timed get ran into the deadline with nothing there
 GClose(w) ==
@@ -140,20 +171,27 @@ GClose(w) ==
   /\ \/ Len(batch[w]) = p.b
      \/ Len(batch[w]) < p.b /\ buf[w] = <<>> /\ now >= deadline[w]
   /\ gpc' = [gpc EXCEPT ![w] = "setflag"]
-  /\ UNCHANGED <<p, now, nextArr, due, qin, rlock, cpc, cz, buf, flag, batch, first, deadline, calls, outs, stopReq>>
+  /\ UNCHANGED <<p, now, nextArr, due, qin, rlock, cpc, cz, buf, flag, busy, batch, first, deadline, calls, outs, stopReq>>
 
 \* `self._batch_get_called.set()` ...
 GSetFlag(w) ==
   /\ gpc[w] = "setflag"
   /\ flag' = [flag EXCEPT ![w] = TRUE] /\ gpc' = [gpc EXCEPT ![w] = "call"]
-  /\ UNCHANGED <<p, now, nextArr, due, qin, rlock, cpc, cz, buf, batch, first, deadline, calls, outs, stopReq>>
+  /\ UNCHANGED <<p, now, nextArr, due, qin, rlock, cpc, cz, buf, busy, batch, first, deadline, calls, outs, stopReq>>
 
 \* ... and the batch goes to `call`
 GCall(w) ==
   /\ gpc[w] = "call"
   /\ calls' = Append(calls, [w |-> w, ids |-> batch[w], t |-> now, first |-> first[w]])
-  /\ batch' = [batch EXCEPT ![w] = <<>>] /\ gpc' = [gpc EXCEPT ![w] = "first"]
+  /\ batch' = [batch EXCEPT ![w] = <<>>] /\ gpc' = [gpc EXCEPT ![w] = "incall"]
+  /\ busy' = [busy EXCEPT ![w] = now + (IF \E k \in 1..Len(batch[w]) : batch[w][k] \in p.slow THEN p.dur ELSE 0)]
   /\ UNCHANGED <<p, now, nextArr, due, qin, rlock, cpc, cz, buf, flag, first, deadline, outs, stopReq>>
+
+\* `call` returns (a slow one: `dur` ticks later); the consumer asks for its next batch
+GReturn(w) ==
+  /\ gpc[w] = "incall" /\ now >= busy[w]
+  /\ gpc' = [gpc EXCEPT ![w] = "first"]
+  /\ UNCHANGED <<p, now, nextArr, due, qin, rlock, cpc, cz, buf, flag, busy, batch, first, deadline, calls, outs, stopReq>>
 
 -----------------------------------------------------------------------------
 (* batch_size 0 / 1 -- `_start_single`                                        *)
@@ -166,11 +204,11 @@ SGet(w) ==
               /\ IF z.kind \in {"exc", "pre"}
                    THEN outs' = outs \cup {[id |-> z.id, kind |-> z.kind]} /\ calls' = calls
                    ELSE outs' = outs /\ calls' = Append(calls, [w |-> w, ids |-> <<z.id>>, t |-> now, first |-> now])
-  /\ UNCHANGED <<p, now, nextArr, due, rlock, cpc, cz, buf, flag, batch, first, deadline, stopReq>>
+  /\ UNCHANGED <<p, now, nextArr, due, rlock, cpc, cz, buf, flag, busy, batch, first, deadline, stopReq>>
 
 -----------------------------------------------------------------------------
-Thread == \E w \in Wk : CLock(w) \/ CGet(w) \/ CProc(w) \/ CMore(w) \/ CDecide(w)
-                        \/ GFirst(w) \/ GMore(w) \/ GClose(w) \/ GSetFlag(w) \/ GCall(w) \/ SGet(w)
+Thread == \E w \in Wk : CTop(w) \/ CToWait(w) \/ CLock(w) \/ CGet(w) \/ CProc(w) \/ CMore(w) \/ CDecide(w)
+                        \/ GFirst(w) \/ GMore(w) \/ GClose(w) \/ GSetFlag(w) \/ GCall(w) \/ GReturn(w) \/ SGet(w)
 Urgent == Arrive \/ Stop \/ Thread
 AllDone == stopReq /\ \A w \in Wk : gpc[w] = "done" /\ cpc[w] \in {"done", "off"}
 
@@ -178,7 +216,7 @@ AllDone == stopReq /\ \A w \in Wk : gpc[w] = "done" /\ cpc[w] \in {"done", "off"
 Tick ==
   /\ ~ENABLED Urgent /\ ~AllDone /\ now < MaxT
   /\ now' = now + 1
-  /\ UNCHANGED <<p, nextArr, due, qin, rlock, cpc, cz, buf, flag, gpc, batch, first, deadline, calls, outs, stopReq>>
+  /\ UNCHANGED <<p, nextArr, due, qin, rlock, cpc, cz, buf, flag, gpc, busy, batch, first, deadline, calls, outs, stopReq>>
 
 Next == Urgent \/ Tick \/ (AllDone /\ UNCHANGED vars)
 Spec == Init /\ [][Next]_vars
@@ -208,6 +246,14 @@ Timely == \A j \in 1..Len(calls) : calls[j].t - calls[j].first <= p.w
 Immediate == p.w = 0 => \A j \in 1..Len(calls) : calls[j].t = calls[j].first
 Finishes == <>AllDone
 
+\* C09 (every accepted request reaches a call): a collector waits for room only while its buffer IS full - a collector that
+\* waits next to a buffer with room is woken only by the next get, and with an empty buffer there never is one
+WaitsOnlyWhenFull == \A w \in Wk : cpc[w] = "waiting" => Len(buf[w]) = Cap
+\* C09 (a lone request is served by whichever worker is free): the read lock is never held by a collector that cannot move
+LockHolderCanMove == \A w \in Wk : ~(rlock = w /\ cpc[w] = "proc" /\ cz[w].kind \in {"ok", "end"} /\ Len(buf[w]) >= Cap)
+
+Trap_BufferFull == ~(\E w \in Wk : Len(buf[w]) = Cap)
+Trap_CollectorWaited == ~(\E w \in Wk : cpc[w] = "waiting")
 Trap_PartialByTimeout == ~(\E j \in 1..Len(calls) : p.b >= 2 /\ Len(calls[j].ids) < p.b /\ calls[j].t = calls[j].first + p.w /\ p.w > 0)
 Trap_FullBatch == ~(\E j \in 1..Len(calls) : p.b >= 2 /\ Len(calls[j].ids) = p.b)
 Trap_TwoWorkersCalled == ~(\E i, j \in 1..Len(calls) : calls[i].w # calls[j].w)
